@@ -5,6 +5,7 @@ package main
 
 import (
 	"encoding/hex"
+	"fmt"
 	"math/rand"
 	"strconv"
 
@@ -112,7 +113,9 @@ func jparams(names, vals []string) ([]JParam, bool) {
 // non-ASCII and empty keys, empty strings, arrays of arrays; paths that follow the document (idents, ["quoted"], [index]),
 // stop at an object / array, or run past it; documents cut short or followed by garbage.
 
-var jKeys = []string{"app", "a", "b", "a_b", "a.b", "k-2", "n", "x y", "é", "", "Z9", "名"}
+// keys with valid multi-byte characters of every UTF-8 length (2: é ö ß, 3: € 名 and the combining U+0301, 4: U+1D11E): the
+// LogQL name has ONE "_" per character, whatever its byte length; text() writes them literally or as \uXXXX escapes
+var jKeys = []string{"app", "a", "b", "a_b", "a.b", "k-2", "n", "x y", "é", "", "Z9", "名", "café", "größe", "ab€", "ab$", "\U0001D11Ek", "e\u0301x"}
 var jStrs = []string{"", "b", "x y", "é", "a\"b", "10", "2.5", "\\", "line\nbreak", "info"}
 var jRaws = []string{"1", "-3", "2.50", "1e2", "true", "false", "null", "0"}
 var jNames = []string{"x", "app", "a_b", "n"}
@@ -162,7 +165,7 @@ func (g *jgen) text(r interface{ Intn(int) int }) string {
 	}
 	switch g.T {
 	case 0:
-		return jsonStr(g.S)
+		return jsonStrEsc(r, g.S)
 	case 1:
 		return g.S
 	case 2:
@@ -171,7 +174,7 @@ func (g *jgen) text(r interface{ Intn(int) int }) string {
 			if i > 0 {
 				s += "," + sp()
 			}
-			s += jsonStr(kv.K) + sp() + ":" + sp() + kv.V.text(r)
+			s += jsonStrEsc(r, kv.K) + sp() + ":" + sp() + kv.V.text(r)
 		}
 		return s + sp() + "}"
 	default:
@@ -184,6 +187,34 @@ func (g *jgen) text(r interface{ Intn(int) int }) string {
 		}
 		return s + "]"
 	}
+}
+
+// jsonStrEsc: the JSON string of s; a character outside ASCII is written literally or (1 in 2 strings) as \uXXXX
+// escapes (a surrogate pair above U+FFFF), so that an all-ASCII line can hold a key with multi-byte characters
+func jsonStrEsc(r interface{ Intn(int) int }, s string) string {
+	ascii := true
+	for i := 0; i < len(s); i++ {
+		if s[i] >= 0x80 {
+			ascii = false
+		}
+	}
+	if ascii || r.Intn(2) == 0 {
+		return jsonStr(s)
+	}
+	out := ""
+	for _, c := range s {
+		switch {
+		case c < 0x80:
+			q := jsonStr(string(c))
+			out += q[1 : len(q)-1]
+		case c < 0x10000:
+			out += fmt.Sprintf("\\u%04x", c)
+		default:
+			c -= 0x10000
+			out += fmt.Sprintf("\\u%04x\\u%04x", 0xd800+(c>>10), 0xdc00+(c&0x3ff))
+		}
+	}
+	return "\"" + out + "\""
 }
 
 func isIdent(s string) bool {
